@@ -45,7 +45,7 @@ def plan_st(draw, tier):
     if draw(st.integers(0, 11)) == 0 and h.family not in ("F", "Fpos"):
         # one training call with thousands of rows (the batch tiled; exactly summable rewards stay exact)
         i = draw(st.sampled_from([k for k, op in enumerate(ops_) if op[0] in ("fit", "partial_fit")]))
-        ops_[i] = [ops_[i][0] + "_tiled", ops_[i][1], ops_[i][2], ops_[i][3], draw(st.sampled_from([300, 1100, 4200]))]
+        ops_[i] = [ops_[i][0] + "_tiled", ops_[i][1], ops_[i][2], ops_[i][3], draw(st.sampled_from([300, 1100, 4200, 9000]))]
     rdt = None
     if h.family in ("Eint", "B") and draw(st.integers(0, 3)) == 0:
         # rewards handed over as a compact array (ratings in int8, clicks as bool): sums must not be formed in that type
